@@ -122,10 +122,14 @@ impl<T: 'static + GcManaged + ?Sized> Root<T> {
 
 impl<T: GcManaged + ?Sized> Root<T> {
     fn gc_box(&self) -> &GcBox<T> {
+        #[cfg(feature = "verif_hooks")]
+        verif::deref_check(self.ptr.as_ptr() as *const u8);
         unsafe { self.ptr.as_ref() }
     }
 
     unsafe fn gc_box_mut(&mut self) -> &mut GcBox<T> {
+        #[cfg(feature = "verif_hooks")]
+        verif::deref_check(self.ptr.as_ptr() as *const u8);
         self.ptr.as_mut()
     }
 }
@@ -218,10 +222,14 @@ impl<T: 'static + GcManaged + ?Sized> UniqueRoot<T> {
 
 impl<T: GcManaged + ?Sized> UniqueRoot<T> {
     fn gc_box(&self) -> &GcBox<T> {
+        #[cfg(feature = "verif_hooks")]
+        verif::deref_check(self.ptr.as_ptr() as *const u8);
         unsafe { self.ptr.as_ref() }
     }
 
     fn gc_box_mut(&mut self) -> &mut GcBox<T> {
+        #[cfg(feature = "verif_hooks")]
+        verif::deref_check(self.ptr.as_ptr() as *const u8);
         unsafe { self.ptr.as_mut() }
     }
 }
@@ -286,6 +294,8 @@ impl<T: 'static + GcManaged> Gc<T> {
 
 impl<T: 'static + GcManaged + ?Sized> Gc<T> {
     fn gc_box(&self) -> &GcBox<T> {
+        #[cfg(feature = "verif_hooks")]
+        verif::deref_check(self.ptr.as_ptr() as *const u8);
         unsafe { self.ptr.as_ref() }
     }
 }
@@ -356,6 +366,11 @@ impl Heap {
     }
 
     fn allocate_raw<T: 'static + GcManaged>(&mut self, data: T) -> GcBoxPtr<T> {
+        #[cfg(feature = "verif_hooks")]
+        let verif_before = {
+            verif::apply_policy(&mut self.collection_threshold);
+            (self.bytes_allocated, self.collection_threshold, verif::collections())
+        };
         if cfg!(any(debug_assertions, feature = "debug_stress_gc")) {
             self.collect();
         } else {
@@ -375,6 +390,16 @@ impl Heap {
 
         self.bytes_allocated += size;
 
+        #[cfg(feature = "verif_hooks")]
+        verif::record_alloc(
+            gc_box_ptr.as_ptr() as *const u8 as usize,
+            any::type_name::<T>(),
+            size,
+            verif_before,
+            self.bytes_allocated,
+            self.collection_threshold,
+        );
+
         if cfg!(feature = "debug_trace_gc") {
             let new_ptr = self.objects.last().unwrap();
             println!(
@@ -389,6 +414,8 @@ impl Heap {
     }
 
     fn collect(&mut self) {
+        #[cfg(feature = "verif_hooks")]
+        verif::record_collection();
         if cfg!(feature = "debug_trace_gc") {
             println!("-- gc begin")
         }
@@ -457,6 +484,13 @@ impl Heap {
 
         self.objects.retain(|obj| obj.colour.get() == Colour::Black);
 
+        #[cfg(feature = "verif_hooks")]
+        verif::record_survivors(
+            self.objects
+                .iter()
+                .map(|obj| obj.as_ref().get_ref() as *const GcBox<dyn GcManaged> as *const u8 as usize),
+        );
+
         bytes_marked
     }
 }
@@ -520,5 +554,230 @@ impl<T: GcManaged> GcManaged for &[T] {
         for i in 0..self.len() {
             self[i].blacken();
         }
+    }
+}
+
+#[cfg(feature = "verif_hooks")]
+pub mod verif {
+    //! Verification hooks H1/H2 (compiled only with feature `verif_hooks`): a dereference
+    //! callback, collection-policy control, allocation log and heap statistics. Read-only with
+    //! respect to the collector's decisions except for `Policy`, which only rewrites the
+    //! collection threshold before the unchanged pacing test runs.
+    use std::cell::{Cell, RefCell};
+    use std::collections::HashMap;
+
+    use super::{Colour, HEAP};
+
+    #[derive(Clone, Copy, Debug, PartialEq)]
+    pub enum Policy {
+        /// Leave the build's own behaviour alone.
+        Default,
+        /// Optimised builds only: never reach the threshold.
+        Never,
+        /// Optimised builds only: reach the threshold at every allocation.
+        Always,
+    }
+
+    #[derive(Clone, Debug)]
+    pub struct AllocRecord {
+        pub addr: usize,
+        pub kind: &'static str,
+        pub size: usize,
+        pub bytes_before: usize,
+        pub threshold_before: usize,
+        pub collected: bool,
+        pub bytes_after: usize,
+        pub threshold_after: usize,
+    }
+
+    #[derive(Clone, Debug)]
+    pub struct BoxInfo {
+        pub addr: usize,
+        pub kind: &'static str,
+        pub num_roots: usize,
+        /// boxes turned Grey by `mark` of this box alone (itself excluded)
+        pub marks: Vec<usize>,
+        /// boxes turned Black / Grey by `blacken` of this box alone (itself excluded)
+        pub blackens_black: Vec<usize>,
+        pub blackens_grey: Vec<usize>,
+    }
+
+    thread_local! {
+        static DEREF_CHECK: Cell<Option<fn(*const u8)>> = Cell::new(None);
+        static POLICY: Cell<Policy> = Cell::new(Policy::Default);
+        static COLLECTIONS: Cell<usize> = Cell::new(0);
+        static LOGGING: Cell<bool> = Cell::new(false);
+        static ALLOC_LOG: RefCell<Vec<AllocRecord>> = RefCell::new(Vec::new());
+        static KINDS: RefCell<HashMap<usize, (&'static str, usize)>> = RefCell::new(HashMap::new());
+    }
+
+    #[inline]
+    pub(super) fn deref_check(ptr: *const u8) {
+        if let Some(f) = DEREF_CHECK.with(|c| c.get()) {
+            f(ptr);
+        }
+    }
+
+    pub fn set_deref_check(f: Option<fn(*const u8)>) {
+        DEREF_CHECK.with(|c| c.set(f));
+    }
+
+    /// Callback for reads and writes through an open captured variable (see object.rs).
+    pub fn slot_check(ptr: *const u8) {
+        deref_check(ptr);
+    }
+
+    pub fn set_policy(policy: Policy) {
+        POLICY.with(|p| p.set(policy));
+    }
+
+    pub fn set_logging(on: bool) {
+        LOGGING.with(|l| l.set(on));
+    }
+
+    pub(super) fn apply_policy(threshold: &mut usize) {
+        match POLICY.with(|p| p.get()) {
+            Policy::Default => {}
+            Policy::Never => *threshold = usize::MAX,
+            Policy::Always => *threshold = 0,
+        }
+    }
+
+    pub fn collections() -> usize {
+        COLLECTIONS.with(|c| c.get())
+    }
+
+    pub(super) fn record_collection() {
+        COLLECTIONS.with(|c| c.set(c.get() + 1));
+    }
+
+    pub(super) fn record_alloc(
+        addr: usize,
+        kind: &'static str,
+        size: usize,
+        before: (usize, usize, usize),
+        bytes_after: usize,
+        threshold_after: usize,
+    ) {
+        KINDS.with(|k| k.borrow_mut().insert(addr, (kind, size)));
+        if LOGGING.with(|l| l.get()) {
+            ALLOC_LOG.with(|log| {
+                log.borrow_mut().push(AllocRecord {
+                    addr,
+                    kind,
+                    size,
+                    bytes_before: before.0,
+                    threshold_before: before.1,
+                    collected: collections() != before.2,
+                    bytes_after,
+                    threshold_after,
+                })
+            });
+        }
+    }
+
+    pub(super) fn record_survivors(addrs: impl Iterator<Item = usize>) {
+        KINDS.with(|k| {
+            let mut kinds = k.borrow_mut();
+            let mut kept = HashMap::new();
+            for a in addrs {
+                if let Some(v) = kinds.get(&a) {
+                    kept.insert(a, *v);
+                }
+            }
+            *kinds = kept;
+        });
+    }
+
+    pub fn take_alloc_log() -> Vec<AllocRecord> {
+        ALLOC_LOG.with(|log| std::mem::take(&mut *log.borrow_mut()))
+    }
+
+    pub fn force_collect() {
+        HEAP.with(|heap| heap.borrow_mut().collect());
+    }
+
+    /// (bytes_allocated, collection_threshold, number of boxes, collections so far)
+    pub fn stats() -> (usize, usize, usize, usize) {
+        HEAP.with(|heap| {
+            let heap = heap.borrow();
+            (
+                heap.bytes_allocated,
+                heap.collection_threshold,
+                heap.objects.len(),
+                collections(),
+            )
+        })
+    }
+
+    /// Live boxes by type name.
+    pub fn object_kinds() -> Vec<(&'static str, usize)> {
+        let mut counts: HashMap<&'static str, usize> = HashMap::new();
+        KINDS.with(|k| {
+            for (kind, _) in k.borrow().values() {
+                *counts.entry(*kind).or_insert(0) += 1;
+            }
+        });
+        let mut ret: Vec<_> = counts.into_iter().collect();
+        ret.sort();
+        ret
+    }
+
+    /// Every box in allocation order with its root count and what the real `mark` / `blacken`
+    /// of that box alone reaches. Leaves all boxes White (as before any collection).
+    pub fn snapshot() -> Vec<BoxInfo> {
+        HEAP.with(|heap| {
+            let heap = heap.borrow();
+            let addr_of = |i: usize| {
+                heap.objects[i].as_ref().get_ref() as *const super::GcBox<dyn super::GcManaged>
+                    as *const u8 as usize
+            };
+            let n = heap.objects.len();
+            let mut ret = Vec::with_capacity(n);
+            for i in 0..n {
+                heap.objects.iter().for_each(|o| o.unmark());
+                heap.objects[i].mark();
+                let marks = (0..n)
+                    .filter(|&j| j != i && heap.objects[j].colour.get() == Colour::Grey)
+                    .map(addr_of)
+                    .collect();
+                heap.objects.iter().for_each(|o| o.unmark());
+                heap.objects[i].blacken();
+                let blackens_black = (0..n)
+                    .filter(|&j| j != i && heap.objects[j].colour.get() == Colour::Black)
+                    .map(addr_of)
+                    .collect();
+                let blackens_grey = (0..n)
+                    .filter(|&j| j != i && heap.objects[j].colour.get() == Colour::Grey)
+                    .map(addr_of)
+                    .collect();
+                let addr = addr_of(i);
+                let kind = KINDS.with(|k| k.borrow().get(&addr).map(|v| v.0).unwrap_or("?"));
+                ret.push(BoxInfo {
+                    addr,
+                    kind,
+                    num_roots: heap.objects[i].num_roots.get(),
+                    marks,
+                    blackens_black,
+                    blackens_grey,
+                });
+            }
+            heap.objects.iter().for_each(|o| o.unmark());
+            ret
+        })
+    }
+
+    /// Addresses of the boxes currently in the heap, in allocation order.
+    pub fn live_addrs() -> Vec<usize> {
+        HEAP.with(|heap| {
+            heap.borrow()
+                .objects
+                .iter()
+                .map(|o| {
+                    o.as_ref().get_ref() as *const super::GcBox<dyn super::GcManaged> as *const u8
+                        as usize
+                })
+                .collect()
+        })
     }
 }
